@@ -80,4 +80,20 @@ def relayExcl (isSelf isTarget : Bool) (state : Nat) : Bool :=
 def pushPullExcl (isSelf : Bool) (state : Nat) : Bool :=
   isSelf || state != 0
 
+/-! the three loops over the member list in memberlist.go -/
+
+/-- `anyAlive()`: is there a member other than the node itself that has not departed? (`Leave` waits for
+its departure to be gossiped only then) -/
+def anyAlive (self : String) (nodes : List SNode) : Bool :=
+  nodes.any (fun n => !n.gone && n.name != self)
+
+/-- `Members()`: the records that have not departed, in list order -/
+def members (nodes : List SNode) : List SNode := nodes.filter (fun n => !n.gone)
+
+/-- `NumMembers()` -/
+def numMembers (nodes : List SNode) : Nat := nodes.countP (fun n => !n.gone)
+
+/-- `Config.IPAllowed(ip)` given the verdict of each configured network on `ip` -/
+def ipAllowed (contains : List Bool) : Bool := contains.isEmpty || contains.any id
+
 end Swim.Select
